@@ -57,6 +57,18 @@ Rep ==
       Call("StringWithByteOrder", 100, LE_LOW, 10, 0, 0), Call("Bit", 100, 0, 0, 9, 0), Call("Byte", 102, 0, 0, 0, 1),
       Call("DoubleRegister", 103, BE_LOW, 0, 0, 0), Call("QuadRegister", 100, LE_LOW, 0, 0, 0), Call("Register", 104, 0, 0, 0, 0),
       Call("Float32", 103, 0, 0, 0, 0), Call("Uint16", 105, 0, 0, 0, 0)>>
+\* the full menu: every accessor x every order (0 = default and the four named ones) at two overlapping addresses
+FullMenu ==
+    SetToSeq(
+        {Call(a, ad, 0, 0, 0, 0) : a \in {"Uint16", "Int16", "Register", "Uint32", "Int32", "Float32", "Uint64", "Int64", "Float64"}, ad \in {100, 101}}
+        \cup {Call(a, 102, 0, 0, 0, h) : a \in {"Byte", "Uint8", "Int8"}, h \in {0, 1}}
+        \cup {Call("Bit", 103, 0, 0, b, 0) : b \in {0, 15}}
+        \cup {Call(a, ad, o, 0, 0, 0) : a \in {"Uint32WithByteOrder", "Int32WithByteOrder", "Float32WithByteOrder",
+                                               "Uint64WithByteOrder", "Int64WithByteOrder", "Float64WithByteOrder"},
+                                        ad \in {100, 101}, o \in Orders5}
+        \cup {Call(a, 101, o, 0, 0, 0) : a \in {"DoubleRegister", "QuadRegister"}, o \in NamedOrders}
+        \cup {Call("String", ad, 0, l, 0, 0) : ad \in {100, 102}, l \in {3, 6}}
+        \cup {Call("StringWithByteOrder", 100, o, l, 0, 0) : l \in {4, 5}, o \in Orders5})
 K == IF Thorough THEN 4 ELSE 3
 RepIdx == IF Thorough THEN 1..14 ELSE 1..Len(Rep)
 Hist(z) == UNION {[1..k -> (IF k = 4 THEN 1..10 ELSE 1..Len(Rep))] : k \in 1..K}
@@ -65,6 +77,9 @@ C13Cases(z) ==
         h \in Hist(0), pl \in {Pay(5)}, d \in {BE_HIGH}}
     \cup {[op |-> "window", start |-> 100, payload |-> PayNul(5), def |-> d, calls |-> [i \in 1..Len(h) |-> Rep[h[i]]], fresh |-> FALSE] :
         h \in UNION {[1..k -> 1..Len(Rep)] : k \in 1..2}, d \in {BE_HIGH, LE_LOW}}
+    \* all histories of length 1 and 2 over the full menu (a mutation shows at the mutating call, order dependence at the second)
+    \cup {[op |-> "window", start |-> 100, payload |-> Pay(6), def |-> d, calls |-> [i \in 1..Len(h) |-> FullMenu[h[i]]], fresh |-> FALSE] :
+        h \in UNION {[1..k -> 1..Len(FullMenu)] : k \in 1..2}, d \in (IF Thorough THEN NamedOrders ELSE {BE_HIGH, LE_HIGH})}
 
 CaseSet(z) == CASE Set = "c04" -> C04Cases(0) [] Set = "c13" -> C13Cases(0)
 
